@@ -76,6 +76,15 @@ CHECKS = {
         "DESIGN.md 6 C16",
         TRUST,
     ),
+    "C19": (
+        "TLC exhaustive check of MC_Stabilisers (Brinkmann over exact rationals; boundary damping as an operational model on "
+        "symbolic values; filter eigen-relations on rational-cosine Fourier modes with arbitrary stale buffers; margin control) "
+        "and CharFunc (table of the documented Heaviside); all cases replayed into the real kernels with poisoned work buffers; "
+        "inequalities evaluated on the code's outputs; dense Fourier sweep",
+        "Model checking of each operator's contraction/fixed-point laws + conformance of the code to the symbolic/rational results.",
+        "DESIGN.md 6 C19",
+        TRUST,
+    ),
 }
 
 NOT_YET = "check not built yet in this round (see DESIGN.md 11 for the build order)"
